@@ -8,6 +8,17 @@ def main():
     ap.add_argument("--seed", type=int, default=int(os.environ.get("VERIF_SEED", "20260930")))
     ap.add_argument("--replay")
     a = ap.parse_args()
+    if a.replay:
+        # every case of a run is derived from (seed, tier) alone: replaying a recorded violation = re-running the check with the
+        # seed and tier stored in the replay file (the failing case then recurs as long as the code still fails on it)
+        import json
+        try:
+            rec = json.load(open(a.replay))
+            a.seed = int(rec.get("seed", a.seed))
+            a.tier = rec.get("tier", a.tier)
+            print("replaying %s: seed=%s tier=%s recorded: %s" % (a.replay, a.seed, a.tier, str(rec.get("detail") or rec.get("what"))[:200].replace("\n", " ")))
+        except Exception as e:
+            print("cannot read replay file %s: %s" % (a.replay, e))
     logging.disable(logging.CRITICAL)
     from harness import core
     mod = importlib.import_module("harness.props." + a.pid.lower())
